@@ -272,7 +272,11 @@ func Execute(dir string, hist []Op, optFsync bool) (obs []Obs, recs []Rec, err e
 				if r.commit >= r.last {
 					continue
 				}
-				r.commit = r.last
+				target := r.last
+				if op.N > 0 && uint64(op.N) < r.last && uint64(op.N) > r.commit {
+					target = uint64(op.N) // scripted histories: commit up to a given index only
+				}
+				r.commit = target
 				st.Commit = r.commit
 			}
 			for _, e := range ents {
@@ -371,6 +375,54 @@ func Recover(dir string) (f Folded, err error, repaired bool) {
 		cur = nil
 		return Folded{State: st, Ents: ents}, nil, repaired
 	}
+}
+
+// openAtSnapshot: open the recovered image at its newest valid snapshot marker, as the node does; hard
+// state and the entries after the marker must be those of the full read.
+func openAtSnapshot(dir string, full Folded) (msg string) {
+	snaps, err := wal.ValidSnapshotEntries(dir)
+	if err != nil || len(snaps) == 0 {
+		return ""
+	}
+	sn := snaps[len(snaps)-1]
+	if sn.Index == 0 {
+		return ""
+	}
+	var cur *wal.WAL
+	defer func() {
+		if r := recover(); r != nil {
+			msg = fmt.Sprintf("panic while opening at snapshot marker %d: %v", sn.Index, r)
+			if cur != nil {
+				func() {
+					defer func() { recover() }()
+					cur.Close()
+				}()
+			}
+		}
+	}()
+	w, err := wal.Open(dir, sn, false)
+	if err != nil {
+		return fmt.Sprintf("open at the newest snapshot marker (index %d term %d): %v, although a read from the start succeeds", sn.Index, sn.Term, err)
+	}
+	cur = w
+	_, st, ents, err := w.ReadAll()
+	w.Close()
+	cur = nil
+	if err != nil {
+		return fmt.Sprintf("ReadAll after opening at snapshot marker %d: %v, although a read from the start succeeds", sn.Index, err)
+	}
+	var want []raftpb.Entry
+	for _, e := range full.Ents {
+		if e.Index > sn.Index {
+			want = append(want, e)
+		}
+	}
+	got := Folded{State: st, Ents: ents}
+	exp := Folded{State: full.State, Ents: want}
+	if got.key() != exp.key() {
+		return fmt.Sprintf("opened at its newest snapshot marker (index %d) the log reads {%s}, the tail of a read from the start is {%s}", sn.Index, got.key(), exp.key())
+	}
+	return ""
 }
 
 // continueProbe: open the (already recovered) image for append, save one more entry, close,
@@ -507,6 +559,13 @@ func CheckHistory(col *ev.Collector, scratch string, hist []Op, optFsync bool, f
 			return
 		}
 		st.ReopenOK++
+		// the node does not read its WAL from the beginning: it opens it at the newest snapshot marker
+		// (node/raft.go openWAL). That view must be the tail of the full view.
+		if msg := openAtSnapshot(img, got); msg != "" {
+			col.Add(ev.Violation{Property: "C05", Signature: "C05|" + kind + "|open-at-snapshot-marker",
+				What:   fmt.Sprintf("%s: image at %s (%s): %s", label, o.Label, detail, msg),
+				Replay: map[string]interface{}{"history": hist, "optimized_fsync": optFsync, "observation": o.Label, "image": detail}})
+		}
 		if kind == "torn-sectors" || (kind != "process-kill" && st.Images%4 == 0) {
 			// the recovered log must accept appends and read back with them (ReadAll has to
 			// zero what follows the last valid record, or later opens hit stale bytes)
@@ -678,6 +737,21 @@ func flipClass(content []byte, bit int) string {
 		}
 	}
 	return "outside-records"
+}
+
+// DeepHistories: scripted histories longer than the enumerated depth. A snapshot marker behind the tail of
+// the log, a segment cut caused by a save that carries only a hard state, a later marker between the first
+// one and the tail, more entries: the node then opens the log at that later marker. The entry size is
+// varied so that for some of them the cut falls exactly on the hard-state-only save.
+func DeepHistories() [][]Op {
+	var out [][]Op
+	for size := 300; size <= 470; size += 10 {
+		for _, hsOnly := range []string{"vote", "term"} {
+			out = append(out, []Op{{Kind: "save", N: 1, Size: 7}, {Kind: "commit"}, {Kind: "save", N: 2, Size: size}, {Kind: "snap"}, {Kind: hsOnly},
+				{Kind: "commit", N: 2}, {Kind: "snap"}, {Kind: "save", N: 1, Size: 7}})
+		}
+	}
+	return out
 }
 
 func Histories(alpha []Op, depth int) [][]Op {
